@@ -566,21 +566,16 @@ func isReaderSide(c *Ctx, fn *ssa.Function) bool {
 	if c.readerSide == nil {
 		c.readerSide = map[*ssa.Function]bool{}
 		writer := map[*ssa.Function]bool{}
+		// writers: functions that take the write token, directly or through a lock wrapper (lockset analysis)
+		las := c.LockAnalyses(pcachePkg, []string{"ProviderCache.writeLock"})
 		for _, f := range c.Funcs(pcachePkg) {
-			instrsDeep(f.SSA, func(g *ssa.Function, in ssa.Instruction) {
-				if s, ok := in.(*ssa.Select); ok {
-					for _, st := range s.States {
-						if x := c.E(st.Chan); x.Op == "field" && x.Name == "writeLock" {
-							writer[topFunc(g)] = true
-						}
+			for _, a := range las[f.Name] {
+				for _, acq := range a.Acquires {
+					if strings.HasSuffix(acq.lock, ".writeLock") || acq.lock == "writeLock" {
+						writer[f.SSA] = true
 					}
 				}
-				if s, ok := in.(*ssa.Send); ok {
-					if x := c.E(s.Chan); x.Op == "field" && x.Name == "writeLock" {
-						writer[topFunc(g)] = true
-					}
-				}
-			})
+			}
 		}
 		var rec func(f *ssa.Function)
 		rec = func(f *ssa.Function) {
